@@ -240,6 +240,9 @@ class Call:
         if levels is None:
             categories = sorted(list(set(data)))
         else:
+            # The data may lack some of the levels, but it cannot contain other values
+            if not set(data).issubset(set(levels)):
+                raise ValueError("The levels beign assigned and the levels in the data differ")
             categories = levels
 
         dtype = pd.api.types.CategoricalDtype(categories=categories, ordered=True)
